@@ -39,6 +39,7 @@ type PropSpec struct {
 	MinObl      int           `json:"min_obligations,omitempty"`
 	Mutants     []string      `json:"mutants,omitempty"`
 	Computed    []string      `json:"computed_premises,omitempty"`
+	Scan        *scanOpts     `json:"scan_nondeterminism,omitempty"`
 	Ignore      []string      `json:"goals_of_other_properties,omitempty"` // regexps: goal obligations that belong to another property's check
 }
 
@@ -131,7 +132,7 @@ func runCheck(id, tier, repo, verif string, seed int, writeEv bool) int {
 		}
 	}
 	work := filepath.Join(verif, ".work", id)
-	o := &runOpts{repo: repo, work: work, timeout: timeout, seed: seed, cross: tier == "thorough", jobs: 16}
+	o := &runOpts{repo: repo, work: work, timeout: timeout, seed: seed, cross: tier == "thorough", jobs: 16, scan: ps.Scan}
 	for _, r := range ps.Functions {
 		o.funcs = append(o.funcs, regexp.MustCompile("^(?:"+r+")$"))
 	}
